@@ -17,6 +17,7 @@ EXPLANATION = (
     "C17.3 orderings on the shared words: the completion tail is loaded with >= Acquire before the entry is read, the completion head is advanced with >= Release, under SQPOLL the submission tail is published with >= Release and the kernel head loaded with >= Acquire, "
     "and the branch choosing them tests the SQPOLL flag; C17.4 the function that returns a reference into the completion array does not advance the completion head before returning it; "
     "C17.5 the cursors have one writer each: local tail only in get_next_sqe_slot, local head only in flush, the kernel tail only through the two sync_ktail_* helpers, the completion head only through advance; the cursor fields are not public. "
+    "C17.7 the slot -> entry index array is initialised as the identity over the ring size the kernel reports (not the requested size), so each submitted entry is consumed exactly once; "
     "C17.6 type-level witnesses: the ring cursors (submission_queue / completion_queue) cannot be reached from outside rusl; "
     "NOT decided: the kernel's side of the protocol, interleavings with a concurrent kernel beyond these ordering obligations, that submitted entries are consumed.")
 ASSUMPTIONS = ["io_uring ABI: head/tail are free-running u32 indices, masked by ring_mask on use", "without SQPOLL the kernel reads the submission tail during io_uring_enter (Relaxed suffices)"]
@@ -28,9 +29,12 @@ COUNTER_FIELDS = {("UringSubmissionQueue", "head"), ("UringSubmissionQueue", "ta
 
 
 def run(ck, progs, tier):
+    from .c18 import check_index_array
     for cfgname, prog in progs.items():
         ck.set_config(prog)
         run_one(ck, prog)
+        # C17.7 every submission slot maps to its own entry (sq_array is the identity over the kernel's ring)
+        check_index_array(ck, prog, "C17.7")
     # type-level witnesses (compile_fail doctests with compiling twins) against the public API of the tree under analysis
     from ..engine import witness
     witness.check(ck, ck.repo, "C17", "C17.6")
